@@ -75,6 +75,11 @@ impl Multiboot2BasicHeader {
 //@  spec:
 //@    ensures r == self.checksum,
 //@end
+//@extract multiboot2-header/src/header.rs :: impl Multiboot2BasicHeader :: fn arch
+//@  ret r
+//@  spec:
+//@    ensures r == self.arch,
+//@end
 }
 
 impl Header for Multiboot2BasicHeader {
@@ -131,6 +136,37 @@ impl<'a> Multiboot2Header<'a> {
 //@            &&& ref_prov(h.0) == ptr@.provenance
 //@            &&& dyn_hdr(h.0) == bh_at_cptr(ptr)
 //@        }),
+//@end
+
+//@extract multiboot2-header/src/header.rs :: impl<'a> Multiboot2Header<'a> :: fn verify_checksum
+//@  ret r
+//@  spec:
+//@    ensures r == checksum_ok(dyn_hdr(self.0).header_magic, dyn_hdr(self.0).arch, dyn_hdr(self.0).length, dyn_hdr(self.0).checksum),
+//@end
+//@extract multiboot2-header/src/header.rs :: impl<'a> Multiboot2Header<'a> :: fn header_magic
+//@  ret r
+//@  spec:
+//@    ensures r == dyn_hdr(self.0).header_magic,   // C11: the stored magic
+//@end
+//@extract multiboot2-header/src/header.rs :: impl<'a> Multiboot2Header<'a> :: fn arch
+//@  ret r
+//@  spec:
+//@    ensures r == dyn_hdr(self.0).arch,
+//@end
+//@extract multiboot2-header/src/header.rs :: impl<'a> Multiboot2Header<'a> :: fn length
+//@  ret r
+//@  spec:
+//@    ensures r == dyn_hdr(self.0).length,
+//@end
+//@extract multiboot2-header/src/header.rs :: impl<'a> Multiboot2Header<'a> :: fn checksum
+//@  ret r
+//@  spec:
+//@    ensures r == dyn_hdr(self.0).checksum,
+//@end
+//@extract multiboot2-header/src/header.rs :: impl<'a> Multiboot2Header<'a> :: fn calc_checksum
+//@  ret r
+//@  spec:
+//@    ensures checksum_ok(magic, arch, length, r),
 //@end
 
 //@extract multiboot2-header/src/header.rs :: impl<'a> Multiboot2Header<'a> :: fn iter
